@@ -6,6 +6,8 @@
    harness, or known from the consumption path: 32 KiB for io.Copy, the given buffer for
    io.CopyBuffer, the destination's choice when io.Copy hands the wrapper to its ReadFrom);
    for [CMulti] with [writeto = true] they are the sizes used to copy each source inside WriteTo.
+   [stop] = [Some k]: the consumer was a Read loop told to stop after k calls ([obs_err = ENil] when
+   no error had come by then); [None]: it read until it was given an error.
    [ncl] = how many times the consumer then called Close. *)
 From Kit Require Export C16.Model C16.Spec Lib.CheckLib.
 
@@ -13,43 +15,56 @@ Definition mkc (sizes : list Z) (dflt : Z) : consumer :=
   {| csizes := map Z.to_nat sizes; cdflt := Z.to_nat dflt |}.
 
 Inductive case :=
-| CLimit (n : Z) (s : list rd) (sizes : list Z) (dflt : Z) (ncl : Z)
+| CLimit (n : Z) (s : list rd) (sizes : list Z) (dflt : Z) (stop : option Z) (ncl : Z)
          (obs_out : list N) (obs_err : err) (obs_closes_before obs_closes_after : Z)
-| CMulti (srcs : list (list rd * bool)) (writeto : bool) (sizes : list Z) (dflt : Z) (ncl : Z)
+| CMulti (srcs : list (list rd * bool)) (writeto : bool) (sizes : list Z) (dflt : Z)
+         (stop : option Z) (ncl : Z)
          (obs_out : list N) (obs_err : err) (obs_closes_before obs_closes_after : list Z)
-| CTee (s : list rd) (budget : option Z) (sizes : list Z) (dflt : Z) (ncl : Z)
+| CTee (s : list rd) (budget : option Z) (sizes : list Z) (dflt : Z) (stop : option Z) (ncl : Z)
        (obs_out : list N) (obs_err : err) (obs_written : list N) (obs_src_closes obs_w_closes : Z)
 (* the Go type of wrapper [w] was observed (interface assertion) to implement / not implement [i] *)
 | CIface (w : wrapper) (i : iface) (obs_implemented : bool).
 
+(* the model's [None] (the consumer stopped) is the harness's ENil *)
 Definition opt_err_eqb (a : option err) (b : err) : bool :=
-  match a with Some a' => err_eqb a' b | None => false end.
+  match a with Some a' => err_eqb a' b | None => err_eqb b ENil end.
 
 Definition model_agrees (v : variant) (c : case) : bool :=
   match c with
-  | CLimit n s sizes dflt k o e cb ca =>
-      let '(mo, me, mcb, mca) := limit_run v n s (mkc sizes dflt) (Z.to_nat k) in
+  | CLimit n s sizes dflt st k o e cb ca =>
+      let '(mo, me, mcb, mca) :=
+        limit_run v n s (mkc sizes dflt) (option_map Z.to_nat st) (Z.to_nat k) in
       eqb_listN mo o && opt_err_eqb me e && Nat.eqb mcb (Z.to_nat cb) && Nat.eqb mca (Z.to_nat ca)
-  | CMulti srcs wt sizes dflt k o e cb ca =>
+  | CMulti srcs wt sizes dflt st k o e cb ca =>
       let '(mo, me, mcb, mca) :=
         multi_run v srcs (if wt then ViaWriteTo (mkc sizes dflt) else ViaRead (mkc sizes dflt))
-                  (Z.to_nat k) in
+                  (option_map Z.to_nat st) (Z.to_nat k) in
       eqb_listN mo o && opt_err_eqb me e && eqb_listnat mcb (map Z.to_nat cb)
       && eqb_listnat mca (map Z.to_nat ca)
-  | CTee s b sizes dflt k o e w sc wc =>
+  | CTee s b sizes dflt st k o e w sc wc =>
       let '(mo, me, mw, msc, mwc) :=
-        tee_run s (option_map Z.to_nat b) (mkc sizes dflt) (Z.to_nat k) in
+        tee_run s (option_map Z.to_nat b) (mkc sizes dflt) (option_map Z.to_nat st) (Z.to_nat k) in
       eqb_listN mo o && opt_err_eqb me e && eqb_listN mw w && Nat.eqb msc (Z.to_nat sc)
       && Nat.eqb mwc (Z.to_nat wc)
   | CIface w i obs => Bool.eqb (implements w i) obs
   end.
 
+(* a consumer that stopped by itself ([stop = Some _] and no error seen) is judged by the
+   early-stop spec; every other observation by the full one *)
+Definition stopped (st : option Z) (e : err) : bool :=
+  match st with Some _ => err_eqb e ENil | None => false end.
+
 Definition oracle (c : case) : bool :=
   match c with
-  | CLimit n s _ _ _ o e cb ca => limit_oracle n s o e (Z.to_nat cb) (Z.to_nat ca)
-  | CMulti srcs _ _ _ _ o e _ ca => multi_oracle srcs o e (map Z.to_nat ca)
-  | CTee s b _ _ _ o e w sc wc =>
-      tee_oracle s (option_map Z.to_nat b) o e w (Z.to_nat sc) (Z.to_nat wc)
+  | CLimit n s _ _ st _ o e cb ca =>
+      if stopped st e then limit_stop_oracle n s o (Z.to_nat ca)
+      else limit_oracle n s o e (Z.to_nat cb) (Z.to_nat ca)
+  | CMulti srcs _ _ _ st _ o e _ ca =>
+      if stopped st e then multi_stop_oracle srcs o (map Z.to_nat ca)
+      else multi_oracle srcs o e (map Z.to_nat ca)
+  | CTee s b _ _ st _ o e w sc wc =>
+      if stopped st e then tee_stop_oracle s o w (Z.to_nat sc) (Z.to_nat wc)
+      else tee_oracle s (option_map Z.to_nat b) o e w (Z.to_nat sc) (Z.to_nat wc)
   | CIface _ _ _ => true   (* the property does not speak of method sets: correspondence only *)
   end.
 
